@@ -228,3 +228,84 @@ func TestTrueDeadlockStillReported(t *testing.T) {
 	}
 	active = false
 }
+
+// collector in the style of a select-based result loop: workers send on an
+// unbuffered channel, a closer closes done after the barrier
+func selectWorkload(n int) (got int, defaults int) {
+	results := make(chan int)
+	done := make(chan struct{})
+	var wg sync.WaitGroup
+	WGAdd(&wg, n)
+	for i := 0; i < n; i++ {
+		t := Spawn()
+		go func() {
+			TaskBegin(t)
+			defer TaskEnd(t)
+			defer WGDone(&wg)
+			Yield(3)
+			s := NewSel()
+			switch s.Do(false, SendCase(results, i+1)) {
+			case 0:
+			}
+		}()
+		Spawned()
+	}
+	t := Spawn()
+	go func() {
+		TaskBegin(t)
+		defer TaskEnd(t)
+		WGWait(&wg)
+		Close(done)
+	}()
+	Spawned()
+	for {
+		s := NewSel()
+		switch s.Do(true, RecvCase(results), RecvCase(done)) {
+		case 0:
+			got += Received(results, s)
+		case 1:
+			return
+		default:
+			defaults++
+			Yield(4)
+			// without default the collector would block; poll a bounded number of times then block
+			s2 := NewSel()
+			switch s2.Do(false, RecvCase(results), RecvCase(done)) {
+			case 0:
+				got += Received(results, s2)
+			case 1:
+				return
+			}
+		}
+	}
+}
+
+func TestSelect(t *testing.T) {
+	want := 0
+	for i := 1; i <= 6; i++ {
+		want += i
+	}
+	for seed := uint64(1); seed < 60; seed++ {
+		for ci, cfg := range []*SchedConfig{
+			{Strategy: StratPrio, PrioRule: PrioMainFirst},
+			{Strategy: StratPrio, PrioRule: PrioWorkersFirst},
+			{Strategy: StratPrio, PrioRule: PrioRandom, PrioSeed: seed, ChangePoints: []int64{int64(seed % 9)}},
+			{Strategy: StratRW, RWSeed: seed, RWMeanGap: 2},
+		} {
+			run := func() (int, SchedStats) {
+				Start(cfg)
+				g, _ := selectWorkload(6)
+				Drain()
+				return g, Stop()
+			}
+			g1, s1 := run()
+			g2, s2 := run()
+			if g1 != want || g2 != want {
+				t.Fatalf("seed %d cfg %d: got %d/%d want %d", seed, ci, g1, g2, want)
+			}
+			if s1.Hash != s2.Hash || s1.Steps != s2.Steps {
+				t.Fatalf("seed %d cfg %d: select run not deterministic", seed, ci)
+			}
+		}
+	}
+}
